@@ -7,7 +7,6 @@ import (
 	"strings"
 	"time"
 
-	"github.com/internetarchive/Zeno/internal/pkg/controler"
 	"github.com/internetarchive/Zeno/internal/verif/vc"
 )
 
@@ -115,7 +114,7 @@ func c15Child(scPath string) int {
 	}
 	pr.perturb, pr.perturbSeed = 1, vc.DeriveSeed(sc.Seed, "C15", "perturb", sc.Index)
 	pr.installHooks(false)
-	controler.Start()
+	pr.start(false)
 	verdict := pr.waitQuiescent(11*time.Second, 20*time.Second, 240*time.Second)
 	rep.Evaluations = 1
 	rep.Extra["verdict"] = verdict
